@@ -54,7 +54,12 @@ impl FencedString {
                 char_starts: Vec::new(),
             }
         } else {
-            let start_byte = self.char_starts[start];
+            // `start == len` denotes the empty suffix, as in the ASCII branch
+            let start_byte = if start == self.char_starts.len() {
+                self.buffer.len()
+            } else {
+                self.char_starts[start]
+            };
             let end_byte = end.and_then(|e| self.char_starts.get(e)).cloned();
             if let Some(end_byte) = end_byte {
                 Self {
@@ -83,7 +88,12 @@ impl FencedString {
                 _ => &self.buffer[start..],
             }
         } else {
-            let start_byte = self.char_starts[start];
+            // `start == len` denotes the empty suffix, as in the ASCII branch
+            let start_byte = if start == self.char_starts.len() {
+                self.buffer.len()
+            } else {
+                self.char_starts[start]
+            };
             let end_byte = end.and_then(|e| self.char_starts.get(e)).cloned();
             if let Some(end_byte) = end_byte {
                 &self.buffer[start_byte..end_byte]
